@@ -265,9 +265,15 @@ def evaluate(asm, lines, idx=0, seeds=None):
     if res[False].status != 'ok':
         # the program is refused even without -c: a pseudo-instruction with literal operands (li with any value, mv, not,
         # ..., nop, ret) is never a reason - every one of them must assemble on its own
+        consts = ''.join(l.text + '\n' for l in lines if l.kind == 'const')
+        if consts and progs.assemble_chunks(asm, consts, False).status != 'ok':
+            consts = None          # the constant definitions themselves are what is refused: not a pseudo-instruction's business
         for i, ln in enumerate(lines, 1):
+            if consts is None:
+                break
             if ln.kind in ('li', 'unary', 'p0', 'pjr'):
-                one = progs.assemble_chunks(asm, ln.text + '\n', False)
+                # (with the program's constant definitions in front: operands may be constants or register aliases)
+                one = progs.assemble_chunks(asm, consts + ln.text + '\n', False)
                 if one.status != 'ok':
                     out['problems'].append(('C05', 'line {} {!r} is refused ({}: {}) although every operand of it is documented'.format(
                         i, ln.text.strip(), one.status, str(one.exc)[:120]), ln.text))
